@@ -318,7 +318,11 @@ class Ctx:
             lines.append("KNOWN-FINDING: property=%s %s" % (self.prop, e.get("what", v["what"])))
         # group unlisted violations by key: one replay file per distinct key (at most 10 lines)
         by_key = {}
+        reported.sort(key=lambda ve: 0 if ve[0]["kind"] == "failing-input" else 1)
+        have_real = any(v["kind"] == "failing-input" for v, _ in reported)
         for v, _ in reported:
+            if have_real and v["kind"] != "failing-input":
+                continue  # a concrete failing input exists: report that, not the broken tie
             by_key.setdefault(v["key"], v)
         n = 0
         for key, v in by_key.items():
@@ -362,22 +366,35 @@ class Ctx:
         return 1 if by_key else 0
 
 
-def diff_corr(ctx, cases, name, classify=None, max_report=20):
+def diff_corr(ctx, cases, name, classify=None, max_report=20, harmless=None):
     """Generic correspondence: `cases` is a list of (case_id, request, real_answer).  Runs the
     model on the requests and records a violation per disagreement.  Returns number of
     disagreements.  `classify(case_id, request, real, model)` may return a key for known-finding
-    matching (default: the request itself)."""
+    matching (default: the request itself).  `harmless(req, real, model)` may return True for a
+    difference that does not by itself violate the property (e.g. another representation of the
+    same value): such a disagreement still breaks the correspondence and is reported, but as
+    `no-failing-input-found` unless a real failing input is found as well."""
     reqs = [c[1] for c in cases]
     ans = ctx.model(reqs)
-    bad = 0
+    bad = nreal = nharmless = 0
     for (cid, req, real), m in zip(cases, ans):
         if real != m:
             bad += 1
-            if bad <= max_report:
-                key = classify(cid, req, real, m) if classify else "%s:%s" % (name, req)
-                ctx.violation(key, "%s: real code and proved model disagree on `%s`" % (name, req),
-                              {"case_id": cid, "request": req, "real": real, "model": m},
-                              broken=["correspondence " + name])
+            soft = bool(harmless and harmless(req, real, m))
+            if soft:
+                nharmless += 1
+                if nharmless > 3:
+                    continue
+            else:
+                nreal += 1
+                if nreal > max_report:
+                    continue
+            key = classify(cid, req, real, m) if classify else "%s:%s" % (name, req)
+            ctx.violation(key, "%s: real code and proved model disagree on `%s`%s" % (
+                              name, req, " (same value, different representation: correspondence broken, property not shown violated by this input)" if soft else ""),
+                          {"case_id": cid, "request": req, "real": real, "model": m},
+                          kind="no-failing-input-found" if soft else "failing-input",
+                          broken=["correspondence " + name])
     return bad
 
 
